@@ -80,6 +80,9 @@ var c16Statements = []string{
 	"SELECT id FROM t1 WHERE (plain, id) = ('%s', %d)",
 	"SELECT id FROM t1 WHERE plain = '%s' GROUP BY id + %d",
 	"SELECT position('%s' in plain), substring(plain from %d) FROM t1",
+	"INSERT INTO t1 (id, plain, c1) VALUES (%d, 'x', '$2b$%s')", // a value for a protected column that begins like a placeholder
+	"UPDATE t1 SET c1 = ':v%s' WHERE id = %d",
+	"UPDATE t1 SET c1 = '$%s' WHERE id = %d",
 }
 
 // statements in the MySQL dialect (MySQL runs)
@@ -142,13 +145,16 @@ var c16MyStatements = []string{
 	"SELECT id FROM t1 WHERE plain = BINARY '%s' AND id = %d DIV 2",
 	"SELECT id FROM t1 WHERE plain = '%s' AND id = if(id > %d, 1, 2)",
 	"SELECT id FROM t1 WHERE plain = _utf8'%s' AND id = %d",
+	"INSERT INTO t1 (id, plain, c1) VALUES (%d, 'x', '$2b$%s')", // a value for a protected column that begins like a placeholder
+	"UPDATE t1 SET c1 = ':v%s' WHERE id = %d",
+	"INSERT INTO t1 (id, plain, c1) VALUES (%d, 'x', ':v%s') ON DUPLICATE KEY UPDATE c1 = ':%s'",
 }
 
 func (C16) Explore(x *kernel.Explorer, seed uint64) {
 	r := kernel.NewRNG(seed, 0xc16)
 	for i := 0; i < 4 && !x.Expired(); i++ {
 		plan := &kernel.Plan{Prop: "C16", Seed: kernel.Mix(seed, uint64(i)), Swarm: map[string]int64{
-			"chunk": int64(r.Intn(4)), "level": int64(r.Intn(3)), "format": int64(r.Intn(3)), "extended": int64(r.Intn(2)), "ignoreparse": int64(r.Intn(2)), "strictparse": int64(r.Intn(3) / 2), "mysql": int64(r.Intn(3) / 2), "depeof": int64(r.Intn(2)), "wyield": int64(r.Intn(2))}}
+			"chunk": int64(r.Intn(4)), "level": int64(r.Intn(3)), "format": int64(r.Intn(3)), "extended": int64(r.Intn(2)), "ignoreparse": int64(r.Intn(2)), "strictparse": int64(r.Intn(3) / 2), "mysql": int64(r.Intn(3) / 2), "depeof": int64(r.Intn(2)), "rawmy": int64(r.Intn(2)), "reexec": int64(r.Intn(2)), "wyield": int64(r.Intn(2))}}
 		n := 2 + r.Intn(8)
 		for j := 0; j < n; j++ {
 			plan.Ops = append(plan.Ops, kernel.Op{ID: j + 1, Kind: "stmt", A: []int64{int64(r.Intn(len(c16Statements) * len(c16MyStatements)))}})
